@@ -107,6 +107,47 @@ CHECKS.update({
             "DESIGN.md 7 C19, appendix F"),
 })
 
+CHECKS.update({
+    "C06": ("exploration",
+            TECH + "the real tool (and the library under its three directory policies) on a simulated filesystem with simulated "
+            "euid, umask, filesystem clock and scripted prompt, compared with an executable reference extractor built from generator ground truth",
+            "Exploration: seeded well-formed trees x invocations (x/e/p, options f q0-q2 i v w=DIR, wildcard lists, pre-existing files with "
+            "prompt scripts) x uid 0/1000 x umask; the resulting SimFS tree (contents, recorded mtimes, recorded permission bits, link "
+            "targets, nothing unexpected, untouched originals) must equal the model tree; stdout for p. The simulated clock makes "
+            "'directory keeps its recorded mtime although children were written later' an ordering constraint, uid 1000 makes "
+            "'metadata only after contents' a permission constraint.",
+            "SimFS semantics are validated against the kernel (check selftest simfs); ownership, set-id bits, modes without recorded "
+            "permissions and mtimes of directories holding unsafe symlinks are not compared; names are separator-free printable with a lower-case letter.",
+            "DESIGN.md 7 C06, appendix G"),
+    "C07": ("fault_enumeration",
+            TECH + "storage faults as the workload (every truncation offset; every <=16-bit burst at every bit offset of stored members; wrong "
+            "recorded CRC/length; damage in compressed data) judged against the bytes a twin reader actually obtains",
+            "Fault enumeration over truncation offsets and bursts for each sampled archive, exploration over archives, stream kinds and "
+            "tool invocations. Oracle: lha_reader_check verdict <=> [length and bitwise CRC-16 of the produced bytes equal the header's]; "
+            "'lha t'/'lha x' lines, extracted files and exit status agree; a cut or burst inside a stored member is always bad.",
+            "Bursts are consecutive in the bit order CRC-16/ARC processes (LSB of each byte first), the only order for which the 16-bit "
+            "guarantee is mathematically true; MacBinary members excluded.",
+            "DESIGN.md 7 C07"),
+    "C08": ("exploration",
+            TECH + "storage corruption, truncation and read-error faults x call histories x stream kinds x directory policies x tool "
+            "modes on SimFS, with ASan/UBSan and an abort() trap as invariant monitors",
+            "Exploration: sampling of a corruption neighbourhood of generated archives of every profile, of the repository's own small "
+            "archives and of random strings behind a valid signature; library histories and in-process tool runs; a worker death is "
+            "attributed to the plan in its slot, confirmed in a fresh process and minimised by running candidates in children.",
+            "Not coverage-guided; intra-allocation overflows that UBSan cannot type are invisible; members declaring > 4 MiB are listed or "
+            "read in bounded pieces, not decoded in full.",
+            "DESIGN.md 7 C08"),
+    "C10": ("exploration",
+            TECH + "the real tool on SimFS, which resolves every path at call time; containment / dangerous-symlinks-last / replace-never-"
+            "follow invariants evaluated after every filesystem operation (= every crash point), with failing-syscall and failing-write faults",
+            "Exploration over hostile archives (path alphabet incl. '..', absolute, backslash, 0xFF, NUL; safe/absolute/'..' symlinks; "
+            "link-then-file patterns; levels 0-3; corrupted variants), option sets (f q i w=), prompt scripts, initial trees with files and "
+            "symlinks to files or dangling, uid 0/1000; a canary tree must stay bit-identical; read-only commands must not mutate.",
+            "SimFS resolution semantics validated against the kernel; 'w=' defines the root; failed operations on '.'/'..' are not counted "
+            "(they cannot succeed in any tree); length order of deferred links checked without 'i' and with a slack of 1 for the stripped leading '/'.",
+            "DESIGN.md 7 C10"),
+})
+
 NOT_APPLICABLE = {
     "C01": "pure function of the compressed bytes (decode(serialise(cmds)) == expand(cmds)): no schedule, clock, fault or stream behaviour to simulate",
     "C02": "pure function of the compressed bytes (adaptive tree is internal state of a deterministic fold): nothing for a simulator to vary",
